@@ -42,6 +42,13 @@ def gen_qcow2(thorough=False):
     for m in (0x0B, 0x0F, 0x1B, 0x8000000000000003, 0x0300, 0xFF,
               0x0100000000000000):
         yield 'qcow2 incompatible mask %#x' % m, qcow2(incompat=m)
+    # two traits at once: version x feature bits, backing file x bits
+    for v in (2, 3):
+        for m in (1 << 2, 1 << 5, (1 << 2) | 1, 1 << 63):
+            yield 'qcow2 v%d incompatible mask %#x' % (v, m), qcow2(
+                version=v, incompat=m)
+        yield 'qcow2 v%d backing file and data-file bit' % v, qcow2(
+            version=v, backing=512, incompat=1 << 2)
     for s in SIZES:
         yield 'qcow2 size %d' % s, qcow2(size=s, pad=b'\xa5')
     yield 'qcow2 truncated 511', qcow2()[:511]
@@ -314,10 +321,11 @@ def vmdk(sectors=20480, ver=1, desc_sec=1, desc_num=2, gd=0, text=None,
 
 
 def vmdk_footer(sectors=20480, ver=1, desc_sec=1, desc_num=2, gd=1024,
-                sig=b'KDMV', marker=(0, 0, 3), eos=(0, 0, 0), pad=b'\x00'):
+                sig=b'KDMV', marker=(0, 0, 3), eos=(0, 0, 0), pad=b'\x00',
+                tail=b'\x00' * 448):
     f = struct.pack('<QII', *marker) + pad * 496
     f += (struct.pack('<4sIIQQQQIQQ', sig, ver, 3, sectors, 128, desc_sec,
-                      desc_num, 512, 0, gd) + b'\x00' * 448)
+                      desc_num, 512, 0, gd) + tail)
     f += struct.pack('<QII', *eos) + pad * 496
     return f
 
@@ -402,6 +410,12 @@ def gen_vmdk(thorough=False):
             ('eos type', vmdk_footer(eos=(0, 0, 1)))):
         yield 'vmdk footer differs in %s' % label, vmdk(gd=GD_AT_END,
                                                         footer=f)
+    # the footer's copy of the header differs only in bytes no check reads
+    for off in (8, 100, 447):
+        t = bytearray(448)
+        t[off] = 1
+        yield 'vmdk footer differs in unparsed byte %d' % (64 + off), vmdk(
+            gd=GD_AT_END, footer=vmdk_footer(tail=bytes(t)))
     yield 'vmdk header without footer flag but footer present', vmdk(
         footer=good)
     for n in (0, 3, 4, 63, 64, 511, 512, 600):
